@@ -955,9 +955,21 @@ class Executor(ExprMixin, CallMixin):
         if h.type is None:
             return ["BaseException"]
         elts = h.type.elts if isinstance(h.type, ast.Tuple) else [h.type]
+        # a module-level constant tuple of classes (`except _READ_ERRORS:`) stands for its elements
+        expanded, todo = [], list(elts)
+        while todo:
+            e = todo.pop(0)
+            tup = self.module.assigns.get(e.id) if isinstance(e, ast.Name) else None
+            if isinstance(tup, ast.Tuple) and len(expanded) + len(todo) < 200:
+                todo = list(tup.elts) + todo
+            else:
+                expanded.append(e)
         names = []
-        for e in elts:
-            vals = self.ev(e, st.fork())
+        for e in expanded:
+            try:
+                vals = self.ev(e, st.fork())
+            except Unsupported:
+                vals = []
             if len(vals) != 1 or not isinstance(vals[0][1], VType):
                 n = ast.unparse(e)
                 short = n.split(".")[-1]
@@ -965,6 +977,10 @@ class Executor(ExprMixin, CallMixin):
                     names.append(n)
                 elif self.uni.known(short):
                     names.append(short)
+                elif self.abstract and isinstance(e, (ast.Name, ast.Attribute)):
+                    # a library class outside the universe: under-approximate the handler (it catches nothing we can name);
+                    # sound for "only X escapes" goals, which is what abstract mode is used for
+                    self.abstracted.append(f"{self.loc(h)} except {n}: class outside the exception universe, handler under-approximated")
                 else:
                     self.unsupported(h, f"except clause with unknown class {n}")
             else:
